@@ -29,6 +29,7 @@ func init() {
 			{Name: "rewind-without-clearing-flag", File: f, Old: "\t\t\t\ts.rdOffset = s.offset + 1\n\t\t\t\ts.insertSemi = false // newline consumed\n\t\t\t\treturn pos, s.tokSEMICOLON(), \"\\n\"\n\t\t\t}\n\t\t\tcomment := s.scanComment()\n\t\t\tif s.mode&ScanComments == 0 {\n\t\t\t\t// skip comment\n\t\t\t\ts.insertSemi = false // newline consumed\n\t\t\t\tgoto scanAgain\n\t\t\t}\n\t\t\ttok = token.COMMENT\n\t\t\tlit = comment\n\t\tcase '/':", New: "\t\t\t\ts.rdOffset = s.offset + 1\n\t\t\t\treturn pos, s.tokSEMICOLON(), \"\\n\"\n\t\t\t}\n\t\t\tcomment := s.scanComment()\n\t\t\tif s.mode&ScanComments == 0 {\n\t\t\t\t// skip comment\n\t\t\t\ts.insertSemi = false // newline consumed\n\t\t\t\tgoto scanAgain\n\t\t\t}\n\t\t\ttok = token.COMMENT\n\t\t\tlit = comment\n\t\tcase '/':", Expect: "progress/Scanner.Scan"},
 			{Name: "hash-rewind-wrong-char", File: f, Old: "\t\t\t\ts.ch = '#'\n", New: "\t\t\t\ts.ch = '/'\n", Expect: "rewind-consistency/Scanner.Scan:'/'"},
 			{Name: "number-dispatch-wider", File: f, Old: "\tcase isDecimal(ch) || ch == '.' && isDecimal(rune(s.peek())):", New: "\tcase isDigit(ch) || ch == '.' && isDecimal(rune(s.peek())):", Expect: "progress/Scanner.Scan"},
+			{Name: "unit-after-whitespace", File: f, Old: "scanAgain:\n\tif s.unitVal == \"\" { // a pending unit ends right at the current offset\n\t\ts.skipWhitespace()\n\t}\n", New: "scanAgain:\n\ts.skipWhitespace()\n", Expect: "unit-position/Scanner.Scan"},
 			{Name: "string-literal-drops-quote", File: f, Old: "\t// '\"' opening already consumed\n\toffs := s.offset - 1\n", New: "\t// '\"' opening already consumed\n\toffs := s.offset\n", Expect: "literal-slice/Scanner.scanString"},
 			{Name: "identifier-start-after-next", File: f, Old: "func (s *Scanner) scanIdentifier() string {\n\toffs := s.offset\n", New: "func (s *Scanner) scanIdentifier() string {\n\ts.next()\n\toffs := s.offset\n", Expect: "literal-slice/Scanner.scanIdentifier"},
 			{Name: "unit-not-cut-from-number", File: f, Old: "lit := string(s.src[offs : s.offset-len(s.unitVal)])", New: "lit := string(s.src[offs:s.offset])", Expect: "unit-tiling/Scanner.scanNumber"},
@@ -132,6 +133,8 @@ func runC15(c *core.Check) {
 		bUnitCleared
 		bLoopNoProgress
 		bLooped
+		bUnitEmpty // s.unitVal == "" known
+		bSkippedWS // skipWhitespace ran on this path
 	)
 	skipWS := findMethod(scannerT, "skipWhitespace")
 	scanPar := parentMap(scan)
@@ -144,7 +147,7 @@ func runC15(c *core.Check) {
 				if st&bLooped != 0 && st&bProgress == 0 {
 					st |= bLoopNoProgress
 				}
-				st |= bLooped
+				st |= bLooped | bSkippedWS
 				continue
 			}
 			if o != nil && cs.must(o, 0) {
@@ -200,8 +203,18 @@ func runC15(c *core.Check) {
 				st |= bSemiWasSet
 			}
 		}
-		if be, ok := e.(*ast.BinaryExpr); ok && be.Op == token.NEQ && fieldIs(be.X, fUnit) && truth {
-			return st | bUnitPending, true
+		if be, ok := e.(*ast.BinaryExpr); ok && (be.Op == token.NEQ || be.Op == token.EQL) && fieldIs(be.X, fUnit) {
+			pending := truth == (be.Op == token.NEQ)
+			if pending {
+				if st&bUnitEmpty != 0 {
+					return st, false // contradicts an earlier test on this path
+				}
+				return st | bUnitPending, true
+			}
+			if st&bUnitPending != 0 {
+				return st, false
+			}
+			return st | bUnitEmpty, true
 		}
 		return st, true
 	}
@@ -225,6 +238,14 @@ func runC15(c *core.Check) {
 			bad, why = e.Pos, "a path returns a token without consuming input (no s.next() and no callee that must call it)"
 		}
 	}
+	upos := token.NoPos
+	for _, e := range res.Exits {
+		if e.State&bUnitPending != 0 && e.State&bSkippedWS != 0 {
+			upos = e.Pos
+		}
+	}
+	c.Decide(!upos.IsValid(), "unit-position", "Scanner.Scan", upos, "the pending unit is emitted before any whitespace is skipped: its position is the current offset minus its length",
+		"the pending unit suffix is emitted on a path that first ran skipWhitespace: its position is computed back from the offset of the NEXT token, so `1m x` reports the UNIT on the blank")
 	c.Decide(!bad.IsValid() && len(res.Exits) > 0, "progress", "Scanner.Scan", bad, "every return path consumed input, emitted-and-cleared the pending unit, or is a guarded rewind that clears insertSemi", why)
 
 	// ---------- (1b) every rewind leaves the scanner state consistent: s.ch is the character at the rewound offset
